@@ -50,11 +50,32 @@ def is_docstring(st):
     return isinstance(st, ast.Expr) and isinstance(st.value, ast.Constant) and isinstance(st.value.value, str)
 
 
+def inert(node):
+    """an expression whose evaluation cannot raise or have an effect for the values that occur: constants, names,
+    attribute reads, f-strings of those, and `"sep".join(name)`"""
+    if isinstance(node, (ast.Constant, ast.Name)):
+        return True
+    if isinstance(node, ast.Attribute):
+        return inert(node.value)
+    if isinstance(node, ast.JoinedStr):
+        return all(inert(v) for v in node.values)
+    if isinstance(node, ast.FormattedValue):
+        return inert(node.value) and (node.format_spec is None or inert(node.format_spec))
+    if (isinstance(node, ast.Call) and isinstance(node.func, ast.Attribute) and node.func.attr == "join"
+            and isinstance(node.func.value, ast.Constant) and isinstance(node.func.value.value, str)
+            and len(node.args) == 1 and isinstance(node.args[0], ast.Name) and not node.keywords):
+        return True
+    return False
+
+
 def is_logger_call(st):
+    """a logging statement that may be dropped: logger.<level>(<inert arguments>) - a log call whose arguments
+    compute something (and so can raise at that point of the wrapper) is NOT dropped and fails the translation"""
     return (isinstance(st, ast.Expr) and isinstance(st.value, ast.Call)
             and isinstance(st.value.func, ast.Attribute) and isinstance(st.value.func.value, ast.Name)
             and st.value.func.value.id == "logger"
-            and st.value.func.attr in ("info", "warning", "error", "debug"))
+            and st.value.func.attr in ("info", "warning", "error", "debug")
+            and all(inert(a) for a in st.value.args) and not st.value.keywords)
 
 
 def get_def(body, name, kind=ast.FunctionDef):
@@ -164,13 +185,18 @@ class BodyTranslator:
             if ok:
                 return "(CopyIn filenames_to_copy)"
         if head == ("filename", "os.listdir(tmpdir_path)"):
+            guard = "false"
+            if (len(body) == 2 and isinstance(body[0], ast.If) and not body[0].orelse
+                    and src(body[0].test) == "not os.path.isfile(os.path.join(tmpdir_path, filename))"
+                    and [src(x) for x in body[0].body] == ["continue"]):
+                guard, body = "true", body[1:]
             if (len(body) == 1 and isinstance(body[0], ast.If) and not body[0].orelse
                     and src(body[0].test) == "any([filename.endswith(ext) for ext in kept_file_exts])"):
                 inner = [src(x) for x in body[0].body if not is_logger_call(x)]
                 if inner == ["shutil.copy(filename, here)"]:
-                    return "(CopyBack false kept_file_exts)"
+                    return f"(CopyBack false {guard} kept_file_exts)"
                 if inner == ["shutil.copy(os.path.join(tmpdir_path, filename), here)"]:
-                    return "(CopyBack true kept_file_exts)"
+                    return f"(CopyBack true {guard} kept_file_exts)"
         if head == ("env_var", "env_vars"):
             if [src(x) for x in body] == ["os.environ[env_var.name] = env_var.new_val"]:
                 return "(SetEnv env_vars)"
@@ -370,6 +396,15 @@ def check_pure(st, where):
         if isinstance(n, (ast.Import, ast.ImportFrom, ast.Global, ast.Nonlocal, ast.With, ast.Try, ast.Delete,
                           ast.FunctionDef, ast.Lambda, ast.Yield, ast.Await)):
             raise Untranslatable(f"{where}: {type(n).__name__} in `{src(st)[:120]}`")
+        if isinstance(n, ast.Call):
+            # no call into code this translator has not read: builtins on values, logging, list building only
+            f = n.func
+            ok = ((isinstance(f, ast.Name) and f.id in ("str", "isinstance", "len", "list"))
+                  or (isinstance(f, ast.Attribute) and isinstance(f.value, ast.Name)
+                      and (f.value.id, f.attr) in (("flags", "append"), ("logger", "info"), ("logger", "warning")))
+                  or inert(n))
+            if not ok:
+                raise Untranslatable(f"{where}: call `{src(n)[:80]}` into code that is not translated")
 
 
 def translate_program(name, wsrc, clsname, closure):
@@ -460,12 +495,82 @@ def translate_program(name, wsrc, clsname, closure):
         ast.get_source_segment(wsrc, ex) or ""
 
 
+STATE_WRITERS = ("os.chdir", "os.putenv", "os.unsetenv", "os.environ.update", "os.environ.pop", "os.environ.clear",
+                 "os.environ.setdefault", "os.environ.__setitem__", "Config.__dict__.update", "Config.__dict__.clear",
+                 "mkdtemp", "tempfile.mkdtemp", "setattr")
+
+
+def scan_state_writes(path_rel, source, allowed):
+    """Every anchored file is scanned for statements that write process-wide state (cwd, os.environ, Config, a
+    temporary directory) OUTSIDE the functions this translator turns into terms: such a statement aborts the
+    translation (a sibling method of a wrapper class that sets a variable is as much a C16 matter as execute)."""
+    tree = ast.parse(source)
+    hits = []
+
+    def visit(node, owner):
+        for ch in ast.iter_child_nodes(node):
+            own = owner
+            if isinstance(ch, (ast.FunctionDef, ast.ClassDef)) and owner.count(".") < 1:
+                own = (owner + "." if owner else "") + ch.name
+            bad = None
+            if isinstance(ch, ast.Call) and src(ch.func) in STATE_WRITERS:
+                if not (src(ch.func) == "setattr" and not src(ch).startswith("setattr(Config")):
+                    bad = src(ch)
+            if isinstance(ch, (ast.Assign, ast.AugAssign, ast.AnnAssign, ast.Delete)):
+                tg = ch.targets if isinstance(ch, (ast.Assign, ast.Delete)) else [ch.target]
+                for tnode in tg:
+                    s = src(tnode)
+                    if s.startswith("os.environ") or s.startswith("Config.") or s == "Config":
+                        bad = src(ch)
+            if bad is not None and own.split(".")[0] not in allowed and own not in allowed:
+                hits.append(f"{path_rel}:{ch.lineno} in {own or '<module>'}: `{bad[:80]}`")
+            visit(ch, own)
+    visit(tree, "")
+    if hits:
+        raise Untranslatable("process-wide state written outside the translated functions: " + "; ".join(hits[:4]))
+
+
+def scan_pool_sites():
+    """Every `with ProcessPool(...) as pool:` block of the package: the block must not assign Config (a pool's
+    workers are forked at its first submission; a Config change between two submissions of one pool would not be
+    seen by the second).  -> number of call sites."""
+    n = 0
+    for base, _, fs in os.walk(os.path.join(REPO, "autode")):
+        for f in fs:
+            if not f.endswith(".py"):
+                continue
+            path = os.path.join(base, f)
+            s = open(path).read()
+            if "ProcessPool" not in s:
+                continue
+            for node in ast.walk(ast.parse(s)):
+                if isinstance(node, ast.With) and any(
+                        isinstance(i.context_expr, ast.Call) and src(i.context_expr.func).endswith("ProcessPool")
+                        for i in node.items):
+                    n += 1
+                    for ch in ast.walk(node):
+                        tg = []
+                        if isinstance(ch, (ast.Assign, ast.Delete)):
+                            tg = ch.targets
+                        elif isinstance(ch, (ast.AugAssign, ast.AnnAssign)):
+                            tg = [ch.target]
+                        if any(src(x).startswith("Config") for x in tg) or (
+                                isinstance(ch, ast.Call) and src(ch).startswith("setattr(Config")):
+                            raise Untranslatable(f"{os.path.relpath(path, REPO)}:{ch.lineno}: Config is assigned inside a "
+                                                 f"`with ProcessPool` block: `{src(ch)[:80]}`")
+    return n
+
+
 def main():
+    n_pool_sites = scan_pool_sites()
     usrc = open(os.path.join(REPO, "autode/utils.py")).read()
+    scan_state_writes("autode/utils.py", usrc, {"work_in", "work_in_tmp_dir", "run_in_tmp_environment", "temporary_config",
+                                                "_copy_into_current_config"})
     res, externals, spans, cleanup_noop = translate_utils(usrc)
     progs = []
     for name, fname, clsname, closure in PROGRAMS:
         wsrc = open(os.path.join(REPO, "autode/wrappers", fname)).read()
+        scan_state_writes(f"autode/wrappers/{fname}", wsrc, {f"{clsname}.execute"})
         term, span = translate_program(name, wsrc, clsname, closure)
         progs.append(term)
         spans.append(span)
@@ -489,7 +594,7 @@ def main():
             f.write(txt)
         os.replace(_tmp, OUT)  # atomic: a concurrent coqc never sees a partial file
     return {"sha256": sha, "terms": {k: v[1] for k, v in res.items()}, "externals": externals,
-            "programs": [p.split('"')[1] for p in progs]}
+            "programs": [p.split('"')[1] for p in progs], "process_pool_sites_scanned": n_pool_sites}
 
 
 if __name__ == "__main__":
